@@ -105,11 +105,13 @@ theorem recvCb_others (s : State) (iid? : Option Nat) (b : Bytes) (k' : Nat)
 theorem resolveWire_low (s : State) (v : Nat) (h : v < idMin) : resolveWire s v = none := by
   simp [resolveWire, h]
 
-theorem resolveWire_unknown (s : State) (v : Nat) (h : s.alias.length ≤ v - idMin) : resolveWire s v = none := by
+theorem resolveWire_unknown (s : State) (v : Nat) (h : s.alias.length ≤ (v - idMin) % relBase) :
+    resolveWire s v = none := by
   unfold resolveWire
   split
   · rfl
-  · simp [h]
+  · have : s.alias[(v - idMin) % relBase]? = none := by simp [h]
+    rw [this]
 
 /-! ### state machine errors -/
 
